@@ -140,6 +140,12 @@ func allCode(ns []Node) bool {
 			return false
 		}
 		switch t := c.S.(type) {
+		case ExprS:
+			// an expression statement that begins with ( [ or { would continue the
+			// statement before it when both stand in one tag: keep such blocks tag-per-statement
+			if s := (Printer{}).expr(t.X, 0); s != "" && strings.ContainsAny(s[:1], "([{") {
+				return false
+			}
 		case IfS:
 			if !ifAllCode(t.If) {
 				return false
